@@ -184,6 +184,12 @@ pub(crate) struct SolverState {
 
     /// Activity score per package.
     name_activity: Vec<f32>,
+
+    /// The decision level at which the current call to [`Solver::run_sat`]
+    /// started. Decisions at or below this level belong to solvables that
+    /// were accepted earlier (the root problem and earlier soft requirements)
+    /// and must survive any backtracking done on behalf of the current one.
+    base_level: u32,
 }
 
 impl<D: DependencyProvider> Solver<D, NowOrNeverRuntime> {
@@ -394,6 +400,7 @@ impl<D: DependencyProvider, RT: AsyncRuntime> Solver<D, RT> {
             .unwrap_or(0);
 
         let mut level = starting_level;
+        self.state.base_level = starting_level;
 
         loop {
             if level == starting_level {
@@ -486,6 +493,26 @@ impl<D: DependencyProvider, RT: AsyncRuntime> Solver<D, RT> {
             tracing::trace!("Level {}: Resolving dependencies", level);
             level = self.resolve_dependencies(level)?;
             tracing::trace!("Level {}: Done resolving dependencies", level);
+
+            // A learnt clause can make the solver backtrack over the decision to
+            // install the requested solvable itself (never below `starting_level`,
+            // see `analyze`). The solvable is then undecided again, or refuted by
+            // the clauses learnt so far.
+            if starting_level > 0 {
+                let requested = self
+                    .state
+                    .variable_map
+                    .intern_solvable_or_root(root_solvable);
+                if self.state.decision_tracker.assigned_value(requested) != Some(true) {
+                    self.state.decision_tracker.undo_until(starting_level);
+                    if self.state.decision_tracker.assigned_value(requested) == Some(false) {
+                        // Ruled out by decisions that were made for earlier requests.
+                        return Ok(false);
+                    }
+                    level = starting_level;
+                    continue;
+                }
+            }
 
             // We have a partial solution. E.g. there is a solution that satisfies all the
             // clauses that have been added so far.
@@ -1424,8 +1451,10 @@ impl<D: DependencyProvider, RT: AsyncRuntime> Solver<D, RT> {
             );
         }
 
-        // Should revert at most to the root level
-        let target_level = back_track_to.max(1);
+        // Should revert at most to the root level, and never below the level at
+        // which the current request started: the decisions below it were made
+        // for requests that have already been accepted.
+        let target_level = back_track_to.max(self.state.base_level).max(1);
         self.state.decision_tracker.undo_until(target_level);
 
         self.decay_activity_scores();
